@@ -58,7 +58,7 @@ pub fn run(rep: &mut Report) {
     rep.assumptions = std_assumptions();
     super::run_corpus(rep, replay);
     let (h8, h16, h32) = match tier {
-        Tier::Quick => (200_000, 200_000, 200_000),
+        Tier::Quick => (200_000, 300_000, 500_000),
         Tier::Thorough => (1_500_000, 1_500_000, 1_500_000),
     };
     fn ties<Q: QT>(rep: &mut Report, cases: u64) {
